@@ -1,6 +1,7 @@
 #!/bin/bash
 # usage: tools_try_seed.sh <patch.diff> <ID> [tier]   — apply a seeded change to /repo, run the check, undo.
 set -u
+export VERIF_EVIDENCE_DIR=/tmp/ommx-mc-seed-evidence
 PATCH="$1"; ID="$2"; TIER="${3:-quick}"
 cd /repo || exit 2
 if ! git diff --quiet; then echo "repo dirty"; exit 2; fi
